@@ -120,13 +120,17 @@ class Gen:
             P["invariants"].append(inv)
         P["traj"] = []
         if o["traj"]:
-            for _ in range(r.choice([1, 1, 2])):
-                k = r.choice(["sometime", "amo", "sbefore", "safter"])
-                a = self.bool_expr(1, {}, {}, noconst=True)
+            for _ in range(r.choice([1, 1, 2, 2, 3])):
+                k = r.choice(["sometime", "amo", "sbefore", "safter", "safter"])
+                # half of the constraint bodies are ground literals on Boolean fluents that some action writes, so that
+                # plans actually drive the monitors through their cases; the others are random expressions
+                body = (lambda: self.written_literal() or self.bool_expr(1, {}, {}, noconst=True)) if r.random() < 0.5 \
+                    else (lambda: self.bool_expr(1, {}, {}, noconst=True))
+                a = body()
                 if k in ("sometime", "amo"):
                     P["traj"].append(E(k, [a]))
                 else:
-                    P["traj"].append(E(k, [a, self.bool_expr(1, {}, {}, noconst=True)]))
+                    P["traj"].append(E(k, [a, body()]))
         P["timed_goals"] = []
         P["timed_effects"] = []
         P["metric"] = {"kind": "none", "costs": [], "default": E("none"), "expr": E("none"), "goals": []}
@@ -134,6 +138,26 @@ class Gen:
             P["metric"] = self.metric()
         P["nmetrics"] = 0 if P["metric"]["kind"] == "none" else 1
         return P
+
+    def written_literal(self):
+        """a ground literal (possibly negated) on a Boolean fluent that some action effect writes; None if there is none"""
+        r, P, o = self.r, self.P, self.o
+        ftype = {f["name"]: f for f in P["fluents"]}
+        targets = [(a, e) for a in P["actions"] for e in a["effects"] if ftype[e["f"]["name"]]["type"]["k"] == "bool"]
+        if not targets:
+            return None
+        a, e = r.choice(targets)
+        ptype = {p["name"]: p["type"]["name"] for p in a["params"]}
+        args = []
+        for x in e["f"]["args"]:
+            if x["op"] == "obj":
+                args.append(x)
+            elif x["op"] == "param" and objs_of(P, ptype[x["name"]]):
+                args.append(E("obj", name=r.choice(objs_of(P, ptype[x["name"]]))))
+            else:
+                return None
+        lit = E("fluent", args, name=e["f"]["name"])
+        return E("not", [lit]) if o["negation"] and r.random() < 0.4 else lit
 
     def add_static_guards(self):
         """Static Boolean fluents (no action writes them: they are added after the effects were generated) used as
@@ -455,7 +479,7 @@ class Gen:
         if t["k"] in ("int", "real") and o["incdec"] and r.random() < 0.5:
             kind = r.choice(["inc", "dec"])
         if t["k"] == "bool":
-            if o["bool_expr_assign"] and r.random() < 0.2:
+            if o["bool_expr_assign"] and r.random() < (0.2 if o["bool_expr_assign"] is True else o["bool_expr_assign"]):
                 v = self.bool_expr(1, params, vs)
             else:
                 v = C(BV(r.random() < 0.6))
